@@ -145,19 +145,20 @@ def renderSmaps (ms : List Mapping) : Bytes := unlines (ms.flatMap mappingLines)
 
 /-- value (kB) of key `k` in mapping `m`; a key the kernel did not print counts as 0 -/
 def Mapping.get (m : Mapping) (k : Bytes) : Nat :=
-  match m.kv.find? (fun e => e.key == k) with
-  | some e => e.val
-  | none => 0
+  ((m.kv.find? (fun e => e.key == k)).map (·.val)).getD 0
 
 /-! ### /proc/pid/smaps_rollup: one pseudo header + the field-wise sums of the kB keys -/
 
 def total (ms : List Mapping) (k : Bytes) : Nat := (ms.map (·.get k)).sum
 
-def rollupHeader (lo hi : Nat) : Bytes :=
-  let core := hexPad 8 lo ++ [45] ++ hexPad 8 hi ++ [32, 45, 45, 45, 112, 32] ++ hexPad 8 0
-    ++ [32] ++ hexPad 2 0 ++ [58] ++ hexPad 2 0 ++ [32] ++ renderDec 0 ++ [32]
-  core ++ List.replicate (72 - core.length) 32 ++ [32]
-    ++ [91, 114, 111, 108, 108, 117, 112, 93]     -- "[rollup]"
+/-- the pseudo mapping whose header the roll-up file starts with: whole address range,
+    `---p 00000000 00:00 0`, name `[rollup]` -/
+def rollupMapping (lo hi : Nat) : Mapping :=
+  { lo := lo, hi := hi, r := false, w := false, x := false, shared := false, off := 0, maj := 0,
+    min := 0, ino := 0, path := some [91, 114, 111, 108, 108, 117, 112, 93], deleted := false,
+    kv := [], flags := none }
+
+def rollupHeader (lo hi : Nat) : Bytes := headerLine (rollupMapping lo hi)
 
 /-- `keys`: the kB keys the kernel prints in the roll-up (those of the mappings) -/
 def renderRollup (keys : List Bytes) (ms : List Mapping) : Bytes :=
